@@ -255,7 +255,7 @@ func main() {
 	harness.Main(harness.Check{
 		ID:    "C01",
 		Level: "exploration",
-		Rule: "each case draws a universe (5 profiles, 4 tiers, 6-9 policies of 5 kinds, 5-7 workload + 3 host endpoints, 3 network sets; 2 of 3 cases add 3 pools, 3 IPAM blocks, 3 nodes and their VXLAN host config), " +
+		Rule: "each case draws a universe (5 profiles, 4 tiers, 6-9 policies of 5 kinds, 5-7 workload + 3 host endpoints, 3 network sets; 2 of 3 cases add 3 pools, 3 IPAM blocks, 3 nodes and their VXLAN host config, wireguard keys, 2 services, 2 endpoint slices, the BGP configuration and service-matching rules), " +
 			"a graph config (nftables on/off, RouteSource) and a 30-120 step history (writes + coalescing, duplicates, reversions, spurious deletes, PRNG catch-up order, 1-4 KV batches, flush after every update / batches / at end, in-sync anywhere); " +
 			"non-trivial = history has >=1 distortion and the final state puts >=1 policy on a local endpoint; distinct by final state",
 		Assumptions: []string{
@@ -265,7 +265,7 @@ func main() {
 		},
 		Cases: func(tier string) int {
 			if tier == "thorough" {
-				return 12000
+				return 7200
 			}
 			return 360
 		},
